@@ -524,3 +524,12 @@ def find_matches(p, root):
         if b is not None:
             out.append((n, b))
     return out
+
+
+def parent_map(root):
+    """child node -> parent node for an arbitrary (possibly expanded / copied) AST"""
+    pm = {}
+    for p in ast.walk(root):
+        for c in ast.iter_child_nodes(p):
+            pm[c] = p
+    return pm
